@@ -1465,8 +1465,6 @@ FINDINGS = {
     "assert_promotion": "C02-assert-promotion",
     "generic_pattern_negative": "C02-generic-typeis-negative",
     # attributed by the executed-program stream (c02_programs.attribute)
-    "nonelementwise_container": "C02-in-nonelementwise-container",
-    "callee_leak": "C02-callee-constraint-leak",
     "subpattern_on_subject": "C02-subpattern-constraint-on-subject",
 }
 COQ_HEADER = ("From Coq Require Import ZArith List Bool NArith. Import ListNotations.\n"
